@@ -17,6 +17,9 @@ BASE_WORDS = [
     b"alpha", b"Beta", b"gamma7", b"delta_x", b"Open Process", b"x-y.z", b"m\xc3\xbcnchen", b"\xff\xfeword",
     b"strcpy", b"WinExec", b"get-item", b"a", b"Zz", b"k9", b"evil.example.com", b"1.2.3.4", b"$env:temp",
     b"C:\\temp", b"cmd", b"http", b"wscript.shell", b"Na\xc3\xafve Word", b"#tag", b"%APPDATA%", b"long keyword with spaces",
+    # phrases that contain indicators: the keyword hit becomes a context with other hits at offset > 0
+    b"visit http://evil.example.com/a.exe now", b"run cmd.exe /c calc", b"mail bob@example.org!", b"ip 10.20.30.40 port 80",
+    b"open C:\\Windows\\System32\\calc.exe please", b"load kernel32.dll then",
 ]
 FILE_NAMES = [
     "api.one", "api.two", "malware", "Label With Space", "\u03b4.label", "UPPER", "x.string", "a", "b.c.d",
@@ -325,10 +328,18 @@ def gen_c09(seed, shipped, tier="quick"):
     ncorp = rng.choice([1, 1, 2, 2, 3, 4])
     corpus = [gen_input(rng, words, hot, exotic=rng.random() < 0.2) for _ in range(ncorp)]
     keys = []
-    for _ in range(rng.randint(1, 4)):
-        k = [rng.randrange(ncorp), rng.choice(DEPTHS)]
-        if k not in keys:
-            keys.append(k)
+    for _ in range(rng.randint(1, 3)):
+        i = rng.randrange(ncorp)
+        ks = [[i, rng.choice(DEPTHS)]]
+        if rng.random() < 0.5:
+            # the same input at a deep and at a shallow limit: retained hits show up as
+            # a shallow result that is too deep (or the reverse), depending on the order
+            ks = [[i, 10], [i, rng.choice([1, 1, 2, 3])]]
+        for k in ks:
+            if k not in keys:
+                keys.append(k)
+    # the pristine world scans shallow limits first; other worlds use any order
+    keys.sort(key=lambda k: (k[1] if k[1] > 0 else 0, k[0]))
     cli_ok = inc is None and exc is None
     cli_keys = []
     if cli_ok and rng.random() < 0.35:
